@@ -485,12 +485,19 @@ func ruleEndErrorIsOutcome(c *Ctx, rule string) {
 		if cell != "cell:appErr" {
 			return false
 		}
+		nh := 0
 		for _, s := range p.cellStoresNamed(pu, "appErr") {
-			if !p.Origins().Of(s.Val).ContainsMatch("dyncall(#1,field(Handler,_),...)") {
+			o := p.Origins().Of(s.Val)
+			switch {
+			case o.ContainsMatch("dyncall(#1,field(Handler,_),...)"):
+				nh++
+			case o.ContainsMatch("call(*status.Error,...)"):
+				// the request was refused before the handler (malformed metadata): that is the outcome
+			default:
 				return false
 			}
 		}
-		return true
+		return nh >= 1
 	})
 	rs := p.MustFn("goat.handler.runStream")
 	chk(rs, "runStream", func(cell string) bool { return cell == "cell:appErr" })
